@@ -131,6 +131,6 @@ def declare(check, na):
     check('C35', 'exploration', 'differential rendering (real CSERenderer vs PlainRenderer) judged by a static scope checker and one reference IR evaluator',
           'seeded random and catalogued expression / Table DAGs with deliberate Python-object sharing (in and out of lambdas, across StreamAgg / StreamAggScan / If) are built through the real API, rendered by both renderers, scope-checked on every node and evaluated by one reference evaluator; no engine evaluation',
           'trusted: the scoping rules and evaluator in c35.py, vf/hail_fake_backend.py, vf/gen_hail_ir.py, shims')
-    check('C36', 'exploration', 'construction-time contract hook on Expression.__init__ + top-down IR walk with the repository\'s binding metadata + Table/MatrixTable schema model + literal round trip',
-          'every expression built in generated literal / expression / API / Table / MatrixTable programs is compared with the IR node\'s own type rule re-applied from its children; every emitted IR is walked with binder types; wrappers are compared with the relational IR type and a schema model; "type implied by the IR" is the Python IR rule, not the engine\'s',
-          'trusted: the schema model and IR walk in c36.py, vf/hail_fake_backend.py, shims')
+    check('C36', 'exploration', 'construction-time contract hook on Expression.__init__ + top-down IR walk with the repository\'s binding metadata + order-precise transcription of the engine\'s relational typ rules (TableIR.scala / MatrixIR.scala) + schema model + literal round trip',
+          'every expression built in generated literal / expression / API / Table / MatrixTable programs is compared with the IR node\'s own type rule re-applied from its children; every emitted IR is walked with binder types; after every Table / MatrixTable operation the emitted relational IR is re-typed bottom-up with the transcribed engine rules and compared exactly (field order included) with the Python node types and the wrappers; for value IR "type implied by the IR" is the Python IR rule',
+          'trusted: vf/hail_relational_rules.py (hand transcription of the Scala typ rules of 33 judged + 20 further node classes; the engine cannot run here), the schema model and IR walk in c36.py, vf/hail_fake_backend.py, shims')
